@@ -2,7 +2,7 @@
 """Regenerate MANIFEST.json from tools/props.py (single source of truth for what is claimed)."""
 import json, os, sys
 sys.path.insert(0, os.path.dirname(os.path.abspath(__file__)))
-from props import PROPS, NOT_APPLICABLE, HOOK_COMMITS
+from props import PROPS, NOT_APPLICABLE, HOOK_COMMITS, HOLD
 V = os.path.dirname(os.path.dirname(os.path.abspath(__file__)))
 ALL = [f"C{i:02d}" for i in range(1, 21)]
 checks = []
@@ -20,7 +20,7 @@ for pid in ALL:
         level_claimed=dict(category=c["level"], text=c["text"], design_ref=c.get("design_ref", f"DESIGN.md §3 {pid}")),
         level_note=c["level_note"],
         technique=c["technique"]))
-na = [dict(property_id=p, reason=NOT_APPLICABLE.get(p, "check not built yet (work in progress; the property is within reach of the technique, see DESIGN.md §3)"))
+na = [dict(property_id=p, reason=NOT_APPLICABLE.get(p) or HOLD.get(p, "check not built yet (work in progress; the property is within reach of the technique, see DESIGN.md §3)"))
       for p in ALL if p not in PROPS]
 m = dict(
     version=1,
